@@ -12,6 +12,32 @@ def TABLES():
     out = ['-- supervisor.compat.maxint', 'def maxint : Int := %d' % maxint]
     out.append('-- initial serial of a pool / of GlobalSerial')
     out.append('def initialSerial : Int := %d' % type(process.GlobalSerial)().serial)
+    out.extend(accept_order())
+    return out
+
+
+def accept_order():
+    """where `_acceptEvent` draws its serials relative to the overflow pop and the buffer insertion (source order
+    of the statements; every one of them is executed at most once per call)"""
+    import ast, os
+    from extract import REPO, find_func
+    func = find_func(ast.parse(open(os.path.join(REPO, 'supervisor/process.py')).read()), 'EventListenerPool._acceptEvent')
+    pos = {}
+    for n in ast.walk(func):
+        if isinstance(n, ast.Call):
+            f = ast.unparse(n.func)
+            if f == 'new_serial' and len(n.args) == 1:
+                pos.setdefault('draw:' + ast.unparse(n.args[0]), []).append(n.lineno)
+            elif f in ('self.event_buffer.insert', 'self.event_buffer.append'):
+                pos.setdefault('insert', []).append(n.lineno)
+            elif f == 'self.event_buffer.pop':
+                pos.setdefault('pop', []).append(n.lineno)
+    out = ['-- statement order inside EventListenerPool._acceptEvent: %s' % ', '.join('%s@%s' % (k, v) for k, v in sorted(pos.items()))]
+    for ident, key in (('serialDrawBeforeInsert', 'draw:GlobalSerial'), ('poolSerialDrawBeforeInsert', 'draw:self')):
+        if len(pos.get(key, [])) == 1 and pos.get('insert'):
+            out.append('def %s : Bool := %s' % (ident, 'true' if pos[key][0] < min(pos['insert']) else 'false'))
+        else:
+            out.append('-- %s  UNTRANSLATED (expected exactly one new_serial(%s) call and an insertion)' % (ident, key[5:]))
     return out
 
 
@@ -27,6 +53,12 @@ SITES = [
           'len(self.event_buffer)': ('buflen', 'int'), 'self.config.buffer_size': ('bufsize', 'int'),
           'self.event_buffer': ('bufNonEmpty', 'truthy:bufNonEmpty')},
          want={'accept_g2', 'accept_g3', 'accept_g4', 'accept_g5', 'accept_g6'}),
+    # which counter object `_acceptEvent` hands to new_serial(): first call -> event.serial, second call ->
+    # event.pool_serials[name].  `GlobalSerial` / `self` are rendered as the *value* of that object's counter, so the
+    # model draws from (and the theorems are about) whatever the source passes.
+    Site('supervisor/process.py', 'EventListenerPool._acceptEvent', 'acceptSer', '(gserial pserial : Int)',
+         {'GlobalSerial': ('gserial', 'int'), 'self': ('pserial', 'int')},
+         calls={'new_serial'}, want={'acceptSer_c0_0', 'acceptSer_c1_0'}),
     Site('supervisor/process.py', 'EventListenerPool.transition', 'ptrans',
          '(running ready capable : Bool) (throttle now last : Int)',
          {'process.state == ProcessStates.RUNNING': ('running', 'bool'),
